@@ -12,6 +12,10 @@ import traceback
 import warnings
 
 
+class CaseTimeout(BaseException):
+    pass
+
+
 def load_lib(repo):
     repo = os.path.realpath(repo)
     sys.path.insert(0, repo)
@@ -39,10 +43,20 @@ def run_one(prop, case, ctx):
     ctx.take_alerts()
     watch = getattr(prop, "GLOBAL_STATE_MONITOR", False)
     before = global_state() if watch else None
+    import signal
+
+    def on_alarm(signum, frame):
+        raise CaseTimeout()
+    old = signal.signal(signal.SIGALRM, on_alarm)
+    signal.alarm(int(os.environ.get("RTMON_CASE_TIMEOUT", "150")))      # generous wall-clock watchdog: firing is inconclusive, never a verdict
     try:
         with warnings.catch_warnings():
             warnings.simplefilter("ignore")
-            res = prop.run(case)
+            try:
+                res = prop.run(case)
+            finally:
+                signal.alarm(0)
+                signal.signal(signal.SIGALRM, old)
         if watch:
             ctx.tick("global-state")
             after = global_state()
@@ -51,6 +65,8 @@ def run_one(prop, case, ctx):
                 import numpy as np
                 np.set_printoptions(**{k: v for k, v in before["printoptions"].items() if k in ("linewidth", "precision", "threshold", "edgeitems", "suppress")})
                 res = violated("the operations of this case changed process-global state that later outcomes depend on: %s" % (changed,), list(res["tags"]) + ["global-state-leak"])
+    except CaseTimeout:
+        return Result(INCONCLUSIVE, ["case-timeout"], "the case did not finish within the per-case watchdog", False)
     except Exception:
         # harness failure (generator / model / tap): never a violation, never a pass
         return Result(INCONCLUSIVE, ["harness-error"], traceback.format_exc(limit=8), False)
